@@ -88,6 +88,7 @@ pub fn diff_program(prog: &BlockStmt) -> DiffOut {
 }
 
 pub fn diff_source(prog: &BlockStmt, src: String) -> DiffOut {
+    crate::engine::note_current("parse", &src);
     match nederlang::parser::parse(&src) {
         Ok(tree) => {
             if format!("{tree:?}") != format!("{prog:?}") {
